@@ -30,6 +30,7 @@ struct MutCtx {
 	const std::vector<std::string> *pool = nullptr;            // other tokens (splice)
 	std::function<bool(const std::string &alg, int signer, const std::string &signing_input, std::string &sig)> resign;
 	const KeyTruth *verifier_key = nullptr; // for ES re-framing
+	std::string pin_name;                   // the algorithm the verifier pinned ("" when none): resign signer 8 labels the token with it
 };
 std::string apply_mutation(const Step &m, std::string &tok, MutCtx &mc, bool &destroys, bool &encoding_level);
 Step gen_mutation(Rng &r, const std::string &bias);
